@@ -25,6 +25,9 @@ def run(ctx):
         "payloads are non-empty (as the property states)",
     ]
     broken = []
+    ok, log = ctx.extract("records", ["lean/KafkaVerif/Gen/RecordConsts.lean"])
+    if not ok:
+        broken.append({"kind": "obligation", "name": "translator go/extract records", "detail": log[-1500:]})
     res = ctx.prove(MODULE)
     if not res["ok"]:
         broken.append({"kind": "obligation", "theorems": res["failed"], "detail": res["reasons"][:10]})
